@@ -487,6 +487,106 @@ Proof.
   apply (adv_alloc_bytes c i s0 _ (proj1 Hinv) Hg' Ec). apply step_adv; assumption.
 Qed.
 
+(* ---------------------------------------------------------------- shrink under an opt-out
+   "with SHRINKS=false / WithoutShrink a shrink never decreases it": a shrink through the
+   WithoutShrink wrapper, or with the SHRINKS setting off, either leaves the arena as it is (the
+   block already satisfies the new alignment) or allocates a new block and copies; the allocated
+   byte count never goes down *)
+Lemma adv_moved c i s s' (ptr nsize len : Z) (x : arena * (Z + err)) res :
+  (match x with
+   | (s1, inl np) => let '(s2, ub) := copy_block s1 ptr np len true in (s2, inl (mkRO np nsize ub))
+   | (s1, inr e) => (s1, inr e)
+   end) = (s', res) -> adv c i s (fst x) -> adv c i s s'.
+Proof.
+  destruct x as [sx [np|e]]; cbn [fst]; intros Hx A.
+  - unfold copy_block in Hx. injection Hx as <- _. eapply adv_ext; [| |exact A]; reflexivity.
+  - injection Hx as <- _. exact A.
+Qed.
+
+Lemma adv_ws_shrink c s i chi ptr osize oalign nsize nalign r s' res :
+  cfg_ok c -> ginv c s -> valid_layout nsize nalign -> cur s = Cur i -> nth_error (chunks s) i = Some chi ->
+  ws_shrink c s ptr osize oalign nsize nalign r = (s', res) -> adv c i s s'.
+Proof.
+  intros Hc Hg Hl Ec Eni H. unfold ws_shrink in H.
+  destruct (divides nalign ptr).
+  - injection H as <- _. apply (adv_same c i s s chi Eni); [reflexivity|exact Ec].
+  - destruct (raw_alloc c s nsize nalign r) as [s1 res1] eqn:Ea.
+    pose proof (adv_raw_alloc c s i nsize nalign r s1 res1 Hc Hg Hl Ec Ea) as A.
+    destruct res1 as [np|e].
+    + destruct (copy_block s1 ptr np (if fix_without_shrink c then nsize else osize) true) as [s2 ub] eqn:Ecb.
+      injection H as <- _. unfold copy_block in Ecb. injection Ecb as <- _.
+      eapply adv_ext; [| |exact A]; reflexivity.
+    + injection H as <- _. exact A.
+Qed.
+
+Lemma adv_raw_shrink_setting_off c s i chi ptr osize oalign nsize nalign r s' res :
+  cfg_ok c -> ginv c s -> valid_layout nsize nalign -> cur s = Cur i -> nth_error (chunks s) i = Some chi ->
+  shrinks c = false ->
+  raw_shrink c s ptr osize oalign nsize nalign r = (s', res) -> adv c i s s'.
+Proof.
+  intros Hc Hg Hl Ec Eni Hs H. unfold raw_shrink in H. rewrite Hs in H. cbn [andb negb orb] in H.
+  destruct (negb (divides nalign ptr)).
+  - destruct (raw_alloc c s nsize nalign r) as [s1 res1] eqn:Ea.
+    pose proof (adv_raw_alloc c s i nsize nalign r s1 res1 Hc Hg Hl Ec Ea) as A.
+    exact (adv_moved c i s s' ptr nsize nsize (s1, res1) res H A).
+  - injection H as <- _. apply (adv_same c i s s chi Eni); [reflexivity|exact Ec].
+Qed.
+
+Definition shrink_opted_out (c : cfg) (o : op) : Prop :=
+  match o with
+  | OShrink _ ws _ _ _ => has_wrapper WShrink ws = true \/ shrinks c = false
+  | _ => False
+  end.
+
+Theorem optout_shrink_adv c s0 o r i :
+  cfg_ok c -> inv c s0 -> cur s0 = Cur i -> shrink_opted_out c o -> op_ok2 c s0 o -> adv c i s0 (fst (step c s0 o r)).
+Proof.
+  intros Hc Hinv Ec Hopt Hok. pose proof Hinv as (Hg & Hblk & _). pose proof Hg as (Hokc & _ & Hm & Hcur).
+  rewrite Ec in Hcur. destruct Hcur as (chi & Eni & Hmpi).
+  assert (Hsame : forall s1, chunks s1 = chunks s0 -> cur s1 = cur s0 -> adv c i s0 s1).
+  { intros s1 E1 E2. apply (adv_same c i s0 s1 chi Eni E1). rewrite E2. exact Ec. }
+  assert (Hgt : ginv c (tick s0)) by (apply inv_tick in Hinv; exact (proj1 Hinv)).
+  assert (Ect : cur (tick s0) = Cur i) by exact Ec.
+  assert (Enit : nth_error (chunks (tick s0)) i = Some chi) by exact Eni.
+  destruct o; try (cbn [shrink_opted_out] in Hopt; contradiction); cbn [step]; set (s := tick s0) in *.
+  cbn [shrink_opted_out] in Hopt. cbn [op_ok2 op_ok] in Hok. destruct Hok as [Hl _].
+  destruct (find_block s b) as [blk|] eqn:Efb; [|apply Hsame; reflexivity].
+  match goal with |- context [if ?g then _ else _] => destruct g end.
+  { destruct (divides nalign (bptr blk)); [|apply Hsame; reflexivity].
+    match goal with |- context [add_block ?a ?b0 ?c0 ?d] => destruct (add_block a b0 c0 d) as [s3 id] eqn:Eadd end. cbn [fst].
+    match type of Eadd with add_block ?a ?b0 ?c0 ?d = _ => assert (E3 : s3 = fst (add_block a b0 c0 d)) by (rewrite Eadd; reflexivity) end.
+    rewrite E3. apply Hsame; reflexivity. }
+  assert (A : forall s1 res1, (if has_wrapper WShrink ws then ws_shrink else raw_shrink) c s (bptr blk) (bsize blk) (balign blk) nsize nalign r = (s1, res1) -> adv c i s0 s1).
+  { intros s1 res1 Eg. destruct (has_wrapper WShrink ws) eqn:Ew.
+    - exact (adv_ws_shrink c s i chi _ _ _ _ _ r s1 res1 Hc Hgt Hl Ect Enit Eg).
+    - destruct Hopt as [Hx|Hs]; [discriminate|].
+      exact (adv_raw_shrink_setting_off c s i chi _ _ _ _ _ r s1 res1 Hc Hgt Hl Ect Enit Hs Eg). }
+  destruct ((if has_wrapper WShrink ws then ws_shrink else raw_shrink) c s (bptr blk) (bsize blk) (balign blk) nsize nalign r) as [s1 [ro|e]] eqn:Eg.
+  - specialize (A s1 _ eq_refl).
+    match goal with |- context [add_block ?a ?b0 ?c0 ?d] => destruct (add_block a b0 c0 d) as [s3 id] eqn:Eadd end. cbn [fst].
+    match type of Eadd with add_block ?a ?b0 ?c0 ?d = _ => assert (E3 : s3 = fst (add_block a b0 c0 d)) by (rewrite Eadd; reflexivity) end.
+    rewrite E3. eapply adv_ext; [| |exact A]; reflexivity.
+  - exact (A s1 _ eq_refl).
+Qed.
+
+Theorem optout_shrink_never_decreases_allocated c s0 o r i :
+  cfg_ok c -> inv c s0 -> cur s0 = Cur i -> shrink_opted_out c o -> op_ok2 c s0 o -> op_resp_ok2 c s0 o r ->
+  alloc_bytes c s0 <= alloc_bytes c (fst (step c s0 o r)).
+Proof.
+  intros Hc Hinv Ec Hopt Hok Hr.
+  pose proof (step_inv c s0 o r Hc Hinv Hok Hr) as (Hg' & _).
+  apply (adv_alloc_bytes c i s0 _ (proj1 Hinv) Hg' Ec). apply optout_shrink_adv; assumption.
+Qed.
+
+(* "shrinking any other block reclaims nothing": a shrink of a block that is not the newest one, to
+   an alignment it already satisfies, leaves the whole arena as it is and returns the same block *)
+Theorem nonlast_fit_shrink_keeps_state c s ptr osize oalign nsize nalign r :
+  divides nalign ptr = true -> is_last c s ptr osize = false ->
+  raw_shrink c s ptr osize oalign nsize nalign r = (s, inl (mkRO ptr osize false)).
+Proof.
+  intros Hd Hl. unfold raw_shrink. rewrite Hd, Hl. cbn [negb]. rewrite orb_true_r. reflexivity.
+Qed.
+
 (* non-vacuity: allocations that outgrow a chunk, and a grow in place *)
 Module AllocExample.
   Definition c0 : cfg := mkCfg true false true true 512 32 16 true.
